@@ -29,18 +29,19 @@ from verif.instrument import safe_repr
 from verif.models import zx_interp as zi
 
 ID = "C16"
-RULE = ("case kinds by index mod 8: (0) gate sweep = each of H, X, Y, Z, CX, "
+RULE = ("case kinds by index: (every 64th) gate sweep = each of H, X, Y, Z, CX, "
         "CZ, SWAP, Y.dagger(), scalar, sqrt once and Rx, Rz, CRz, CRx, CU1 at "
         "26 phases (14 fixed incl. 0, +-1/4, +-1/2, +-1, 2 and irrational ones, "
         "12 seeded draws from [-2,2]), Ket/Bra for all bitstrings of length "
-        "<=3, probes of gates outside the supported set (refusals); (1, 2) a "
+        "<=3, probes of gates outside the supported set (refusals); (index mod "
+        "8 in 1, 2) a "
         "random ZX diagram (Z/X spiders of arity 0-3 each side, H, SWAP, "
         "complex scalars, <=5 wires, <=8 boxes) for the dagger law; (else) a "
         "random pure circuit on 0-3 qubits, depth <=8, over the supported "
         "set incl. kets/bras and scalars, translated, interpreted, compared "
         "up to one factor, then the dagger law on the translated diagram.  "
         "Non-trivial = >=3 boxes or a sweep; distinct by the written-out spec.")
-SIZES = {"quick": (16, 200), "thorough": (16, 5000)}
+SIZES = {"quick": (16, 192), "thorough": (16, 4800)}
 TIMEOUT = {"quick": 600, "thorough": 5400}
 COVER = {
     "discopy.quantum.zx:gate2zx": 1.0,
@@ -49,8 +50,8 @@ COVER = {
     "discopy.quantum.zx:Had.dagger": 1.0,
 }
 MIN_EVALS = {
-    "quick": {"zx-denotes-circuit-up-to-scalar": 7000, "zx-wire-counts": 7000,
-              "zx-dagger-is-conjugate-transpose": 2500},
+    "quick": {"zx-denotes-circuit-up-to-scalar": 9000, "zx-wire-counts": 9000,
+              "zx-dagger-is-conjugate-transpose": 9500},
     "thorough": {"zx-denotes-circuit-up-to-scalar": 150000,
                  "zx-dagger-is-conjugate-transpose": 60000}}
 ASSUMPTIONS = [
@@ -435,7 +436,7 @@ def random_zx(rng, ctx):
 
 def run_case(rng, ctx):
     kind = ctx.index % 8
-    if kind == 0 and ctx.index % 16 == 0:
+    if ctx.index % 64 == 0:
         gate_sweep(rng, ctx)
     elif kind in (1, 2):
         random_zx(rng, ctx)
